@@ -158,9 +158,15 @@ struct Pieces<'a> {
     pieces: &'a [Vec<u8>],
     fail_at: i64, // return fmt::Error before piece k (1-based); 0 never
     panic_at: i64,
+    calls: std::cell::Cell<u32>, // a value with interior state: what it prints depends on how often it was formatted
 }
+pub const AGAIN: &str = "<formatted more than once>";
 impl std::fmt::Display for Pieces<'_> {
     fn fmt(&self, f: &mut std::fmt::Formatter<'_>) -> std::fmt::Result {
+        self.calls.set(self.calls.get() + 1);
+        if self.calls.get() > 1 {
+            return f.write_str(AGAIN); // `to_string()` formats a value exactly once
+        }
         for (i, p) in self.pieces.iter().enumerate() {
             if self.fail_at == i as i64 + 1 {
                 return Err(std::fmt::Error);
@@ -546,7 +552,7 @@ impl Pool {
             "display" => {
                 // to_string() of the same Display value
                 let items = items_of(&op.x);
-                let p = Pieces { pieces: &items, fail_at: op.n, panic_at: op.m };
+                let p = Pieces { pieces: &items, fail_at: op.n, panic_at: op.m, calls: Default::default() };
                 let mut s = String::new();
                 match write!(s, "{}", p) {
                     Ok(()) => {
@@ -900,7 +906,7 @@ impl Pool {
             "display" => {
                 // to_lean_string() of a user Display type writing its text in pieces
                 let items = items_of(&op.x);
-                let p = Pieces { pieces: &items, fail_at: op.n, panic_at: op.m };
+                let p = Pieces { pieces: &items, fail_at: op.n, panic_at: op.m, calls: Default::default() };
                 if tr {
                     match p.try_to_lean_string() {
                         Ok(v) => {
